@@ -394,7 +394,7 @@ pub struct Cli {
 }
 
 impl Cli {
-    /// run `bita compress`; delivery "file" | "pipe"; sched "natural" | "late_tmp"
+    /// run `bita compress`; delivery "file" | "pipe" | "fifo"; sched "natural" | "late_tmp" | "jitter"
     pub fn compress(&self, conf: &Conf, nbuf: usize, delivery: &str, sched: &str, tag: &str, existing: &str) -> (String, i32, Option<Vec<u8>>, Vec<String>) {
         let input = format!("{}/in_{}.bin", self.dir, tag);
         let output = format!("{}/out_{}.cba", self.dir, tag);
@@ -448,6 +448,11 @@ impl Cli {
             let tmp = std::path::Path::new(&output).with_extension(".tmp");
             cmd = Command::new("strace");
             cmd.args(["-f", "-o", "/dev/null", "-P", tmp.to_str().unwrap(), "-e", "trace=write", "-e", &format!("inject=write:delay_enter={}", self.strace_delay_us), &self.bita]);
+        } else if sched == "jitter" {
+            // perturbed timing: every third read / write / futex wake of any thread of the process is delayed on entry, so that worker
+            // completion order, channel hand-offs and the writer thread interleave differently from an undisturbed run
+            cmd = Command::new("strace");
+            cmd.args(["-f", "-o", "/dev/null", "-e", "trace=read,write,futex", "-e", "inject=read,write,futex:delay_enter=250:when=2+3", &self.bita]);
         } else {
             cmd = Command::new(&self.bita);
         }
